@@ -1,39 +1,42 @@
 import IrVerif.Model.JournalKernel
 import IrVerif.Lemmas.Journal
 /-!
-Helper development for `C20_transparent_kernel`: what the kernel instantiation `kCfg` of the journal
-model does when nothing is wrapped.  Running the user code of a kernel history on the pristine class
-table executes exactly the calls of `callTree`, in order, leaves the kernel world of
-`Kernel.stepAny`, and logs the kernel's outcomes.  (The journaled run is then related to this one by
-the general theorems of Props/C20.lean.)
+Helper development for `C20_transparent_kernel` / `C20_transparent_kernel_spelled`: what the kernel instantiation
+`kCfg` of the journal model does when nothing is wrapped.  Running the user code of a history of public calls
+(`GCall`: plain kernel ops, or spelled ones) on the pristine class table executes exactly the calls of their call
+trees, in order, leaves the kernel world of the kernel semantics, and logs the kernel's outcomes with the value a
+direct call returns.  (The journaled run is then related to this one by the general theorems of Props/C20.lean.)
 -/
 namespace IrVerif.Journal
 
-/-- the world after some calls: the argument register holds `reg`, the calls `evs` were traced -/
-def adv (w : World KState) (reg : List L1 × Bool) (evs : List Ev) : World KState :=
-  { w with ir := { w := w.ir.w, reg := reg }, trace := w.trace ++ evs }
+/-- the world after some calls: the argument register holds `reg`, the user code holds `last`, the calls `evs`
+    were traced -/
+def adv (w : World KState) (reg : List L1 × Bool × Val) (last : Outcome) (evs : List Ev) : World KState :=
+  { w with ir := { w := w.ir.w, reg := reg, last := last }, trace := w.trace ++ evs }
 
-theorem adv_nil (w : World KState) : adv w w.ir.reg [] = w := by
+theorem adv_nil (w : World KState) : adv w w.ir.reg w.ir.last [] = w := by
   cases w with
   | mk ir table current journals trace log =>
     cases ir
     simp [adv]
 
-theorem adv_adv (w : World KState) (r r' : List L1 × Bool) (e e' : List Ev) :
-    adv (adv w r e) r' e' = adv w r' (e ++ e') := by
+theorem adv_adv (w : World KState) (r r' : List L1 × Bool × Val) (l l' : Outcome) (e e' : List Ev) :
+    adv (adv w r l e) r' l' e' = adv w r' l' (e ++ e') := by
   simp [adv, List.append_assoc]
 
 theorem runProg_callL1 (disp : Nat → Obj → Val → World KState → World KState × Outcome)
     (c : L1) (rest : Prog KState) (w : World KState) :
     runProg disp (callL1 c rest) w =
       runProg disp rest
-        (disp c.slot c.self .none { w with ir := { w.ir with reg := (c.kids.map lift0, c.ok) } }).1 := rfl
+        (disp c.slot c.self .none { w with ir := { w.ir with reg := (c.kids.map lift0, c.ok, c.ret) } }).1 := rfl
 
 theorem runProg_callL2 (disp : Nat → Obj → Val → World KState → World KState × Outcome)
     (c : L2) (rest : Prog KState) (w : World KState) :
     runProg disp (callL2 c rest) w =
       runProg disp rest
-        (disp c.slot c.self .none { w with ir := { w.ir with reg := (c.kids, c.ok) } }).1 := rfl
+        { (disp c.slot c.self .none { w with ir := { w.ir with reg := (c.kids, c.ok, c.ret) } }).1 with
+          ir := { (disp c.slot c.self .none { w with ir := { w.ir with reg := (c.kids, c.ok, c.ret) } }).1.ir with
+            last := (disp c.slot c.self .none { w with ir := { w.ir with reg := (c.kids, c.ok, c.ret) } }).2 } } := rfl
 
 theorem dispatch_pristine (f slot : Nat) (self : Obj) (arg : Val) (w : World KState)
     (h : w.table = pristine) :
@@ -46,15 +49,15 @@ theorem runOrig_kCfg (disp : Nat → Obj → Val → World KState → World KSta
     (slot : Nat) (self : Obj) (arg : Val) (w : World KState) :
     runOrig kCfg disp slot self arg w =
       ((emit (.finish slot self
-          (runProg disp (callL1s w.ir.reg.1 (.done (outOf w.ir.reg.2))) (emit (.start slot self) w)).2)
-          (runProg disp (callL1s w.ir.reg.1 (.done (outOf w.ir.reg.2))) (emit (.start slot self) w)).1),
-       (runProg disp (callL1s w.ir.reg.1 (.done (outOf w.ir.reg.2))) (emit (.start slot self) w)).2) := rfl
+          (runProg disp (callL1s w.ir.reg.1 (.done (outT slot w.ir.reg.2.1 w.ir.reg.2.2))) (emit (.start slot self) w)).2)
+          (runProg disp (callL1s w.ir.reg.1 (.done (outT slot w.ir.reg.2.1 w.ir.reg.2.2))) (emit (.start slot self) w)).1),
+       (runProg disp (callL1s w.ir.reg.1 (.done (outT slot w.ir.reg.2.1 w.ir.reg.2.2))) (emit (.start slot self) w)).2) := rfl
 
 /-- level 0: calls that make no calls -/
 theorem calls0 (f : Nat) : ∀ (kids : List L0) (rest : Prog KState) (w : World KState),
     w.table = pristine →
     ∃ reg', runProg (dispatch kCfg (f + 1)) (callL1s (kids.map lift0) rest) w =
-      runProg (dispatch kCfg (f + 1)) rest (adv w reg' (kids.flatMap evs0)) := by
+      runProg (dispatch kCfg (f + 1)) rest (adv w reg' w.ir.last (kids.flatMap evs0)) := by
   intro kids
   induction kids with
   | nil => intro rest w _; exact ⟨w.ir.reg, by simp [callL1s, adv_nil]⟩
@@ -63,27 +66,28 @@ theorem calls0 (f : Nat) : ∀ (kids : List L0) (rest : Prog KState) (w : World 
     simp only [List.map_cons, callL1s, runProg_callL1]
     rw [dispatch_pristine f _ _ _ _ (by exact hw), runOrig_kCfg]
     simp only [lift0, List.map_nil, callL1s, runProg]
-    obtain ⟨reg', h⟩ := ih rest (adv w ([], c.ok) (evs0 c)) hw
+    obtain ⟨reg', h⟩ := ih rest (adv w ([], c.ok, c.ret) w.ir.last (evs0 c)) hw
     refine ⟨reg', ?_⟩
-    have e : (emit (.finish c.slot c.self (outOf c.ok))
-        (emit (.start c.slot c.self) { w with ir := { w.ir with reg := ([], c.ok) } })) =
-        adv w ([], c.ok) (evs0 c) := by
+    have e : (emit (.finish c.slot c.self (outT c.slot c.ok c.ret))
+        (emit (.start c.slot c.self) { w with ir := { w.ir with reg := ([], c.ok, c.ret) } })) =
+        adv w ([], c.ok, c.ret) w.ir.last (evs0 c) := by
       simp [emit, adv, evs0, List.append_assoc]
     rw [e, h, adv_adv]
-    simp [List.flatMap_cons]
+    simp [List.flatMap_cons, adv]
 
-theorem emit_adv (slot : Nat) (self : Obj) (out : Outcome) (w : World KState) (R r0 : List L1 × Bool)
+theorem emit_adv (slot : Nat) (self : Obj) (out : Outcome) (w : World KState) (R r0 : List L1 × Bool × Val)
     (evs : List Ev) :
     emit (.finish slot self out)
-        (adv (emit (.start slot self) { w with ir := { w.ir with reg := R } }) r0 evs) =
-      adv w r0 ([.start slot self] ++ evs ++ [.finish slot self out]) := by
+        (adv (emit (.start slot self) { w with ir := { w.ir with reg := R } })
+          r0 (emit (.start slot self) { w with ir := { w.ir with reg := R } }).ir.last evs) =
+      adv w r0 w.ir.last ([.start slot self] ++ evs ++ [.finish slot self out]) := by
   simp [emit, adv, List.append_assoc]
 
 /-- level 1: calls whose callees make no calls -/
 theorem calls1 (f : Nat) : ∀ (kids : List L1) (rest : Prog KState) (w : World KState),
     w.table = pristine →
     ∃ reg', runProg (dispatch kCfg (f + 2)) (callL1s kids rest) w =
-      runProg (dispatch kCfg (f + 2)) rest (adv w reg' (kids.flatMap evs1)) := by
+      runProg (dispatch kCfg (f + 2)) rest (adv w reg' w.ir.last (kids.flatMap evs1)) := by
   intro kids
   induction kids with
   | nil => intro rest w _; exact ⟨w.ir.reg, by simp [callL1s, adv_nil]⟩
@@ -91,120 +95,122 @@ theorem calls1 (f : Nat) : ∀ (kids : List L1) (rest : Prog KState) (w : World 
     intro rest w hw
     simp only [callL1s, runProg_callL1]
     rw [dispatch_pristine (f + 1) _ _ _ _ (by exact hw), runOrig_kCfg]
-    obtain ⟨r0, h0⟩ := calls0 f c.kids (.done (outOf c.ok))
-      (emit (.start c.slot c.self) { w with ir := { w.ir with reg := (c.kids.map lift0, c.ok) } }) hw
+    obtain ⟨r0, h0⟩ := calls0 f c.kids (.done (outT c.slot c.ok c.ret))
+      (emit (.start c.slot c.self) { w with ir := { w.ir with reg := (c.kids.map lift0, c.ok, c.ret) } }) hw
     rw [h0]
     simp only [runProg]
     rw [emit_adv]
-    obtain ⟨reg', h⟩ := ih rest (adv w r0 (evs1 c)) hw
+    obtain ⟨reg', h⟩ := ih rest (adv w r0 w.ir.last (evs1 c)) hw
     refine ⟨reg', ?_⟩
-    show runProg _ (callL1s cs rest) (adv w r0 (evs1 c)) = _
+    show runProg _ (callL1s cs rest) (adv w r0 w.ir.last (evs1 c)) = _
     rw [h, adv_adv]
-    simp [List.flatMap_cons]
+    simp [List.flatMap_cons, adv]
 
-/-- level 2: the top-level calls of a public call -/
+/-- level 2: the top-level calls of a public call; the user code keeps what the last one handed back -/
 theorem calls2 (f : Nat) : ∀ (kids : List L2) (rest : Prog KState) (w : World KState),
     w.table = pristine →
     ∃ reg', runProg (dispatch kCfg (f + 3)) (callL2s kids rest) w =
-      runProg (dispatch kCfg (f + 3)) rest (adv w reg' (kids.flatMap evs2)) := by
+      runProg (dispatch kCfg (f + 3)) rest (adv w reg' (lastOf kids w.ir.last) (kids.flatMap evs2)) := by
   intro kids
   induction kids with
-  | nil => intro rest w _; exact ⟨w.ir.reg, by simp [callL2s, adv_nil]⟩
+  | nil => intro rest w _; exact ⟨w.ir.reg, by simp [callL2s, lastOf, adv_nil]⟩
   | cons c cs ih =>
     intro rest w hw
     simp only [callL2s, runProg_callL2]
     rw [dispatch_pristine (f + 2) _ _ _ _ (by exact hw), runOrig_kCfg]
-    obtain ⟨r0, h0⟩ := calls1 f c.kids (.done (outOf c.ok))
-      (emit (.start c.slot c.self) { w with ir := { w.ir with reg := (c.kids, c.ok) } }) hw
+    obtain ⟨r0, h0⟩ := calls1 f c.kids (.done (outT c.slot c.ok c.ret))
+      (emit (.start c.slot c.self) { w with ir := { w.ir with reg := (c.kids, c.ok, c.ret) } }) hw
     rw [h0]
     simp only [runProg]
     rw [emit_adv]
-    obtain ⟨reg', h⟩ := ih rest (adv w r0 (evs2 c)) hw
+    obtain ⟨reg', h⟩ := ih rest (adv w r0 (outT c.slot c.ok c.ret) (evs2 c)) hw
     refine ⟨reg', ?_⟩
-    show runProg _ (callL2s cs rest) (adv w r0 (evs2 c)) = _
-    rw [h, adv_adv]
-    simp [List.flatMap_cons]
+    have e : ({ adv w r0 w.ir.last ([Ev.start c.slot c.self] ++ c.kids.flatMap evs1 ++ [Ev.finish c.slot c.self (outT c.slot c.ok c.ret)]) with
+        ir := { (adv w r0 w.ir.last ([Ev.start c.slot c.self] ++ c.kids.flatMap evs1 ++ [Ev.finish c.slot c.self (outT c.slot c.ok c.ret)])).ir with
+          last := outT c.slot c.ok c.ret } } : World KState) = adv w r0 (outT c.slot c.ok c.ret) (evs2 c) := by
+      simp [adv, evs2]
+    rw [e, h, adv_adv]
+    simp [List.flatMap_cons, lastOf, adv]
 
-/-- the world after a history: kernel state, register, trace and log advanced -/
-def advH (w : World KState) (ops : List Kernel.AnyOp) (reg : List L1 × Bool) : World KState :=
-  { w with ir := { w := histWorld w.ir.w ops, reg := reg },
-           trace := w.trace ++ histEvs w.ir.w ops, log := w.log ++ histLog w.ir.w ops }
+/-- the world after a history: kernel state, register, `last`, trace and log advanced -/
+def advH (w : World KState) (ops : List GCall) (reg : List L1 × Bool × Val) (last : Outcome) : World KState :=
+  { w with ir := { w := gWorld w.ir.w ops, reg := reg, last := last },
+           trace := w.trace ++ gEvs w.ir.w ops, log := w.log ++ gLog w.ir.w ops }
 
-theorem advH_nil (w : World KState) : advH w [] w.ir.reg = w := by
+theorem advH_nil (w : World KState) : advH w [] w.ir.reg w.ir.last = w := by
   cases w with
   | mk ir table current journals trace log =>
     cases ir
-    simp [advH, histWorld, histEvs, histLog]
+    simp [advH, gWorld, gEvs, gLog]
 
-theorem histWorld_append (w : KW) (a b : List Kernel.AnyOp) :
-    histWorld w (a ++ b) = histWorld (histWorld w a) b := by
-  simp [histWorld, List.foldl_append]
+theorem gWorld_append (w : KW) (a b : List GCall) :
+    gWorld w (a ++ b) = gWorld (gWorld w a) b := by
+  simp [gWorld, List.foldl_append]
 
-theorem histEvs_append (w : KW) (a b : List Kernel.AnyOp) :
-    histEvs w (a ++ b) = histEvs w a ++ histEvs (histWorld w a) b := by
+theorem gEvs_append (w : KW) (a b : List GCall) :
+    gEvs w (a ++ b) = gEvs w a ++ gEvs (gWorld w a) b := by
   induction a generalizing w with
-  | nil => simp [histEvs, histWorld]
-  | cons op rest ih => simp [histEvs, histWorld, ih, List.append_assoc]
+  | nil => simp [gEvs, gWorld]
+  | cons op rest ih => simp [gEvs, gWorld, ih, List.append_assoc]
 
-theorem histLog_append (w : KW) (a b : List Kernel.AnyOp) :
-    histLog w (a ++ b) = histLog w a ++ histLog (histWorld w a) b := by
+theorem gLog_append (w : KW) (a b : List GCall) :
+    gLog w (a ++ b) = gLog w a ++ gLog (gWorld w a) b := by
   induction a generalizing w with
-  | nil => simp [histLog, histWorld]
-  | cons op rest ih => simp [histLog, histWorld, ih]
+  | nil => simp [gLog, gWorld]
+  | cons op rest ih => simp [gLog, gWorld, ih]
 
-theorem advH_advH (w : World KState) (a b : List Kernel.AnyOp) (r r' : List L1 × Bool) :
-    advH (advH w a r) b r' = advH w (a ++ b) r' := by
-  simp [advH, histWorld_append, histEvs_append, histLog_append, List.append_assoc]
+theorem advH_advH (w : World KState) (a b : List GCall) (r r' : List L1 × Bool × Val) (l l' : Outcome) :
+    advH (advH w a r l) b r' l' = advH w (a ++ b) r' l' := by
+  simp [advH, gWorld_append, gEvs_append, gLog_append, List.append_assoc]
 
 /-- one public call on the pristine table -/
-theorem run_op (f : Nat) (op : Kernel.AnyOp) (w : World KState) (hw : w.table = pristine) :
-    ∃ reg', runBlock kCfg (f + 3) (.attempt (.op (opProg op))) w = (advH w [op] reg', none) := by
-  obtain ⟨r0, h0⟩ := calls2 f (callTree w.ir.w op)
-    (.get fun st' => .put { st' with w := (Kernel.stepAny w.ir.w op).1 }
-        (.done (outOf (okOf (Kernel.stepAny w.ir.w op).2)))) w hw
-  refine ⟨r0, ?_⟩
-  have h1 : runProg (dispatch kCfg (f + 3)) (opProg op) w =
-      runProg (dispatch kCfg (f + 3)) (callL2s (callTree w.ir.w op)
-        (.get fun st' => .put { st' with w := (Kernel.stepAny w.ir.w op).1 }
-          (.done (outOf (okOf (Kernel.stepAny w.ir.w op).2))))) w := rfl
+theorem run_op (f : Nat) (c : GCall) (w : World KState) (hw : w.table = pristine) :
+    ∃ reg' last', runBlock kCfg (f + 3) (.attempt (.op (gProg c))) w = (advH w [c] reg' last', none) := by
+  obtain ⟨r0, h0⟩ := calls2 f (c.trees w.ir.w)
+    (.get fun st' => .put { st' with w := (c.step w.ir.w).1 }
+        (.done (outOfV (c.step w.ir.w).2 (if c.direct then valOf st'.last else .none))))
+    { w with ir := { w.ir with last := .ret .none } } hw
+  refine ⟨r0, lastOf (c.trees w.ir.w) (.ret .none), ?_⟩
+  have h1 : runProg (dispatch kCfg (f + 3)) (gProg c) w =
+      runProg (dispatch kCfg (f + 3)) (callL2s (c.trees w.ir.w)
+        (.get fun st' => .put { st' with w := (c.step w.ir.w).1 }
+          (.done (outOfV (c.step w.ir.w).2 (if c.direct then valOf st'.last else .none)))))
+        { w with ir := { w.ir with last := .ret .none } } := rfl
   simp only [runBlock, h1, h0, runProg]
-  simp [adv, advH, histWorld, histEvs, histLog]
+  simp [adv, advH, gWorld, gEvs, gLog, gOut]
 
-theorem advH_table (w : World KState) (ops : List Kernel.AnyOp) (r : List L1 × Bool) :
-    (advH w ops r).table = w.table := rfl
-
-theorem run_hist (f : Nat) : ∀ (ops : List Kernel.AnyOp) (w : World KState), w.table = pristine →
-    ∃ reg', runBlock kCfg (f + 3) (histBlock ops) w = (advH w ops reg', none) := by
+theorem run_hist (f : Nat) : ∀ (ops : List GCall) (w : World KState), w.table = pristine →
+    ∃ reg' last', runBlock kCfg (f + 3) (gBlock ops) w = (advH w ops reg' last', none) := by
   intro ops
   induction ops with
-  | nil => intro w _; exact ⟨w.ir.reg, by simp [histBlock, runBlock, advH_nil]⟩
+  | nil => intro w _; exact ⟨w.ir.reg, w.ir.last, by simp [gBlock, runBlock, advH_nil]⟩
   | cons op rest ih =>
     intro w hw
-    obtain ⟨r1, h1⟩ := run_op f op w hw
-    obtain ⟨r2, h2⟩ := ih (advH w [op] r1) hw
-    refine ⟨r2, ?_⟩
-    show runBlock kCfg (f + 3) (.seq (.attempt (.op (opProg op))) (histBlock rest)) w = _
+    obtain ⟨r1, l1, h1⟩ := run_op f op w hw
+    obtain ⟨r2, l2, h2⟩ := ih (advH w [op] r1 l1) hw
+    refine ⟨r2, l2, ?_⟩
+    show runBlock kCfg (f + 3) (.seq (.attempt (.op (gProg op))) (gBlock rest)) w = _
     rw [runBlock, h1]
     simp only []
     rw [h2, advH_advH]
     rfl
 
-theorem strip_histBlock (ops : List Kernel.AnyOp) : strip (histBlock ops) = histBlock ops := by
+theorem strip_gBlock (ops : List GCall) : strip (gBlock ops) = gBlock ops := by
   induction ops with
   | nil => rfl
-  | cons op rest ih => simp [histBlock, strip, ih]
+  | cons op rest ih => simp [gBlock, strip, ih]
 
-/-- any kernel history with its journals removed, on the pristine table -/
-theorem run_kblk_plain (f : Nat) : ∀ (kb : KBlk) (w : World KState), w.table = pristine →
-    ∃ reg', runBlock kCfg (f + 3) (strip kb.toBlock) w = (advH w kb.allOps reg', none) := by
+/-- any history with its journals removed, on the pristine table -/
+theorem run_gblk_plain (f : Nat) : ∀ (kb : GBlk) (w : World KState), w.table = pristine →
+    ∃ reg' last', runBlock kCfg (f + 3) (strip kb.toBlock) w = (advH w kb.allOps reg' last', none) := by
   intro kb
   induction kb with
-  | ops l => intro w hw; rw [KBlk.toBlock, strip_histBlock]; exact run_hist f l w hw
+  | ops l => intro w hw; rw [GBlk.toBlock, strip_gBlock]; exact run_hist f l w hw
   | seq a b iha ihb =>
     intro w hw
-    obtain ⟨r1, h1⟩ := iha w hw
-    obtain ⟨r2, h2⟩ := ihb (advH w a.allOps r1) hw
-    refine ⟨r2, ?_⟩
+    obtain ⟨r1, l1, h1⟩ := iha w hw
+    obtain ⟨r2, l2, h2⟩ := ihb (advH w a.allOps r1 l1) hw
+    refine ⟨r2, l2, ?_⟩
     show runBlock kCfg (f + 3) (.seq (strip a.toBlock) (strip b.toBlock)) w = _
     rw [runBlock, h1]
     simp only []
@@ -222,11 +228,11 @@ theorem callL1s_out (disp : Nat → Obj → Val → World KState → World KStat
   | cons c cs ih => intro w; rw [callL1s, runProg_callL1]; exact ih _
 
 theorem procNone_kCfg : ProcNone kCfg := by
-  intro k _ disp self arg w v hv
-  have h : (runProg disp (kCfg.impl k self arg) w).2 = outOf w.ir.reg.2 :=
+  intro k hk disp self arg w v hv
+  have h : (runProg disp (kCfg.impl k self arg) w).2 = outT k w.ir.reg.2.1 w.ir.reg.2.2 :=
     callL1s_out disp _ w.ir.reg.1 w
   rw [h] at hv
-  cases hr : w.ir.reg.2 <;> simp [outOf, hr] at hv
+  cases hr : w.ir.reg.2.1 <;> simp [outT, outOfV, retFor, hr, hk] at hv
   exact hv.symm
 
 theorem detailsOk_kCfg : DetailsOk kCfg := fun _ _ _ s => ⟨s, rfl⟩
@@ -257,18 +263,54 @@ theorem allCall_evs2 (c : L2) : ∀ e ∈ evs2 c, isCall e = true := by
   · exact allCall_evs1 k e hk
   · subst h; rfl
 
-theorem allCall_histEvs (w : KW) (ops : List Kernel.AnyOp) : ∀ e ∈ histEvs w ops, isCall e = true := by
+theorem allCall_gEvs (w : KW) (ops : List GCall) : ∀ e ∈ gEvs w ops, isCall e = true := by
   induction ops generalizing w with
-  | nil => intro e he; simp [histEvs] at he
+  | nil => intro e he; simp [gEvs] at he
   | cons op rest ih =>
     intro e he
-    simp only [histEvs, List.mem_append, List.mem_flatMap] at he
+    simp only [gEvs, List.mem_append, List.mem_flatMap] at he
     rcases he with ⟨t, _, ht⟩ | h
     · exact allCall_evs2 t e ht
     · exact ih _ e h
 
-theorem isCall_histEvs (w : KW) (ops : List Kernel.AnyOp) :
-    (histEvs w ops).filter isCall = histEvs w ops :=
-  List.filter_eq_self.mpr (allCall_histEvs w ops)
+theorem isCall_gEvs (w : KW) (ops : List GCall) :
+    (gEvs w ops).filter isCall = gEvs w ops :=
+  List.filter_eq_self.mpr (allCall_gEvs w ops)
+
+/-! ### the two instances -/
+
+theorem histBlock_eq (ops : List Kernel.AnyOp) : histBlock ops = gBlock (ops.map gOf) := by
+  induction ops with
+  | nil => rfl
+  | cons op rest ih => simp [histBlock, gBlock, opProg, ih]
+
+theorem KBlk.toBlock_eq (kb : KBlk) : kb.toBlock = kb.toG.toBlock := by
+  induction kb with
+  | ops l => exact histBlock_eq l
+  | seq a b iha ihb => simp [KBlk.toBlock, KBlk.toG, GBlk.toBlock, iha, ihb]
+  | withJ j body ih => simp [KBlk.toBlock, KBlk.toG, GBlk.toBlock, ih]
+
+theorem KBlk.allOps_toG (kb : KBlk) : kb.toG.allOps = kb.allOps.map gOf := by
+  induction kb with
+  | ops l => rfl
+  | seq a b iha ihb => simp [KBlk.allOps, KBlk.toG, GBlk.allOps, iha, ihb]
+  | withJ j body ih => simpa [KBlk.allOps, KBlk.toG, GBlk.allOps] using ih
+
+theorem gWorld_gOf (w : KW) (ops : List Kernel.AnyOp) : gWorld w (ops.map gOf) = histWorld w ops := by
+  induction ops generalizing w with
+  | nil => rfl
+  | cons op rest ih => simp only [List.map_cons, gWorld, histWorld, List.foldl_cons] at ih ⊢; exact ih _
+
+theorem KBlkX.allOps_toG (kb : KBlkX) : kb.toG.allOps = kb.allCalls.map gOfX := by
+  induction kb with
+  | ops l => rfl
+  | seq a b iha ihb => simp [KBlkX.allCalls, KBlkX.toG, GBlk.allOps, iha, ihb]
+  | withJ j body ih => simpa [KBlkX.allCalls, KBlkX.toG, GBlk.allOps] using ih
+
+theorem gWorld_gOfX (w : KW) (cs : List KCall) :
+    gWorld w (cs.map gOfX) = histWorld w (cs.map (·.op)) := by
+  induction cs generalizing w with
+  | nil => rfl
+  | cons c rest ih => simp only [List.map_cons, gWorld, histWorld, List.foldl_cons] at ih ⊢; exact ih _
 
 end IrVerif.Journal
